@@ -115,6 +115,9 @@ def generate(seed, tier):
             for lead in ("\n", "\n\n", "\n \n", "\n#x\n", " \n"):
                 for style in ("lf", "crlf", "cr", "mix"):
                     yield req("utf8", style, len(lead) + len(head) + 40, hexs(lead + head), "s", t)
+                    # only the TAIL is re-spelled by the executor: the whole document as tail, no head, no padding, so that the very
+                    # first terminator of the input is a CR / CR LF too
+                    yield req("utf8", style, 0, "-", "s", hexs(lead + head + tail + ("" if name.endswith("-eof") else SUFFIX)))
                 yield req("utf16le", r.choice(["crlf", "cr"]), len(lead) + len(head) + 40, hexs(lead + head), "s", t)
         # every delimiter / terminator / non-ASCII character INSIDE the construct on the buffer boundaries as well
         spots = [len(tail[:i].encode("utf-8")) for i, ch in enumerate(tail) if ch in ";'\"[]{}\n_#:\\" or ord(ch) > 126]
